@@ -168,13 +168,11 @@ M = [
             {
                 let _ = store.append(''', ['C16'], 'replacement stops the old instance without .unregistered'),
  ('D34', 'C17', 'handlers/serve.rs', '''                "unregister" | "unregistered" => {''', '''                "unregister" => {''', ['C17'], 'start-up ignores .unregistered (failed handlers come back)'),
- ('D35', 'C18', 'generators/serve.rs', '''            "source_id": task.id.to_string(),
+ ('D35', 'C18', 'generators/serve.rs', '''        "source_id": task.id.to_string(),
     });
-
-    let frame = store.append(''', '''            "source_id": if suffix == "stop" { task.topic.clone() } else { task.id.to_string() },
+''', '''        "source_id": if suffix == "stop" { task.topic.clone() } else { task.id.to_string() },
     });
-
-    let frame = store.append(''', ['C18'], 'stop frame carries the wrong source_id'),
+''', ['C18'], 'stop frame carries the wrong source_id'),
  ('D36', 'C19', 'commands/serve.rs', '''                        .meta(serde_json::json!({
                             "command_id": command.id.to_string(),
                             "frame_id": frame.id.to_string(),
